@@ -210,6 +210,12 @@ PATTERNS = {
     'path10-backticks': lambda n: ' '.join('`' * (1 + i % 7) + 'a' for i in range(n)) + '\n',
     'path11-pipes': lambda n: '|a' * n + '|\n' + '|-' * n + '|\n',
     'path12-headers-toc': lambda n: '{{TOC}}\n\n' + ''.join('# h%d #\n\nx\n\n' % i for i in range(n)),
+    # mixtures: every unit holds a matched pair *and* leaves an opener on the stack (per-type opener bookkeeping must stay exact)
+    'path13-matched-then-mismatched-emph': lambda n: '_x_ *a_\n' * n,
+    'path14-matched-then-mismatched-brackets': lambda n: '(x) [ a)\n' * n,
+    'path15-code-span-then-open-emph': lambda n: '`x` *a\n' * n,
+    'path16-link-then-open-bracket': lambda n: '[x](y) [a\n' * n,
+    'path17-strong-then-open-ul': lambda n: '**x** _a*\n' * n,
 }
 
 
@@ -218,7 +224,7 @@ def main():
     thorough = chk.thorough
     chk.rule = ('stack: %d nesting constructs x {closed, unclosed} x opener runs of 10^3..10^%d bytes x writers on the shipped-flags build under an 8 MiB stack (signal = violation), '
                 'stack high-water from the trace-pc callback must plateau between the two largest sizes, plus one no-pool ASan run per construct; cost: executed basic blocks of d^k '
-                'for corpus/generated seeds d and k = 1..%d, slope between doublings <= %.2f once a run exceeds %d blocks (scale = max(k, output growth)), and 12 pathological '
+                'for corpus/generated seeds d and k = 1..%d, slope between doublings <= %.2f once a run exceeds %d blocks (scale = max(k, output growth)), and 17 pathological '
                 'patterns at N = 2^8..2^%d; distinct = (construct, closed, size, writer) runs that completed and (seed document, writer) series with >= 2 judged doublings' %
                 (len(CONSTRUCTS), 6 if thorough else 5, 256 if thorough else 64, RATIO_MAX, BASE_BLOCKS, 16 if thorough else 14))
     chk.assumptions = ['cost = basic blocks executed inside the library (gcc -fsanitize-coverage=trace-pc), exact and independent of machine load',
